@@ -100,10 +100,10 @@ def jsonl_cases(rng, n, maxlines):
     d = tempfile.mkdtemp(prefix="c19-")
     try:
         for _ in range(n):
-            kinds = [rng.choice(["obj", "obj", "blank", "corrupt", "spaces"]) for _ in range(rng.randint(0, maxlines))]
+            kinds = [rng.choice(["obj", "obj", "blank", "corrupt", "spaces", "badutf8"]) for _ in range(rng.randint(0, maxlines))]
             ignore = rng.random() < 0.6
             if not ignore:
-                kinds = [k for k in kinds if k != "corrupt"]
+                kinds = [k for k in kinds if k not in ("corrupt", "badutf8")]
             lines, objs = [], []
             for i, k in enumerate(kinds):
                 if k == "obj":
@@ -114,13 +114,18 @@ def jsonl_cases(rng, n, maxlines):
                     lines.append("")
                 elif k == "spaces":
                     lines.append("   ")
+                elif k == "badutf8":
+                    # a line that cannot even be decoded (a record cut inside a multi-byte character): binary mode only
+                    lines.append(rng.choice([b'{"id": 1, "txt": "caf\xc3"}', b'{"a": "\xe2\x82"}', b'\xff\xfe{"a": 1}']))
                 else:
                     lines.append('{"broken": ')
-            text = "\n".join(lines) + ("\n" if lines and rng.random() < 0.7 else "")
+            blines = [l if isinstance(l, bytes) else l.encode("utf-8") for l in lines]
+            data = b"\n".join(blines) + (b"\n" if lines and rng.random() < 0.7 else b"")
+            text = data.decode("utf-8", "backslashreplace")
             path = os.path.join(d, "f.jsonl")
-            with open(path, "w", encoding="utf-8") as f:
-                f.write(text)
-            for mode, bsz in itertools.product(("r", "rb"), (1, 2, 3, 5, 8, 4096)):
+            with open(path, "wb") as f:
+                f.write(data)
+            for mode, bsz in itertools.product(("rb",) if "badutf8" in kinds else ("r", "rb"), (1, 2, 3, 5, 8, 4096)):
                 runs += 1
                 try:
                     kw = {} if mode == "rb" else {"encoding": "utf-8"}
